@@ -197,7 +197,12 @@ def run(config, tier, seed):
             return {"reproduced": not same, "note": "compared symbolically (array expressions remain)"}
         return {"reproduced": bool(abs(lv - rv) > 1e-12 * (1 + abs(lv))), "renamed": str(lv), "original o sigma": str(rv)}
 
-    res = discharge(ctx, obs, config=config["name"], replay=replay, timeout_s=60, hunt_rounds=2)
+    try:
+        res = discharge(ctx, obs, config=config["name"], replay=replay, timeout_s=60, hunt_rounds=2)
+    except BaseException as exc:  # noqa: BLE001  (keep the ground side-checks if the configuration runs out of time)
+        if type(exc).__name__ != "_ConfigTimeout":
+            raise
+        res = [Result(name="configuration time limit (solver obligations)", kind="identity", status="unknown", config=config["name"], detail="ground side-checks kept")]
     for r in out + res:
         if r.status in ("sat", "fail"):
             r.selector = f"{config['name']}::{r.name.split('::')[0]}"
